@@ -392,6 +392,33 @@ def tag_of(kf):
     return m
 
 
+def raw_equivalent(spec, art, tags):
+    """targets with structure-aware units (spec["raw_dump_env"]) can write the equivalent raw unit; use it as the replay
+    when it fails the same way, so that the reproducer does not depend on the target's generator encoding"""
+    env_name = spec.get("raw_dump_env")
+    if not env_name:
+        return None
+    tmp = art + ".raw"
+    extra = {env_name: tmp}
+    if tags:
+        extra["VERIF_KNOWN_TAGS"] = ",".join(tags)
+    try:
+        subprocess.run([target_path(spec["target"]), "-timeout=10", "-rss_limit_mb=3000", "-runs=1",
+                        "-artifact_prefix=" + os.path.join(engine.WORK, "rerun-%d-" % os.getpid()), art],
+                       stdout=subprocess.DEVNULL, stderr=subprocess.DEVNULL, env=child_env(extra), timeout=120,
+                       preexec_fn=_preexec)
+    except subprocess.TimeoutExpired:
+        return None
+    if not os.path.exists(tmp):
+        return None
+    with open(art, "rb") as f1, open(tmp, "rb") as f2:
+        if f1.read() == f2.read():
+            return None
+    if all(run_one(spec["target"], tmp, tags)[0] == "crash" for _ in range(2)):
+        return tmp
+    return None
+
+
 def write_replay(pid, seed, art, sig, stderr, hist):
     d = os.path.join(VERIF, "replays", "new")
     os.makedirs(d, exist_ok=True)
@@ -563,6 +590,10 @@ def main(spec, argv=None):
 
     if camp.confirmed is not None:
         art, sig, stderr, hist = camp.confirmed
+        if hist is None:
+            raw = raw_equivalent(spec, art, tags)
+            if raw is not None:
+                art = raw
         path = write_replay(pid, seed, art, sig, stderr, hist)
         with open(art, "rb") as f:
             data = f.read()
